@@ -86,7 +86,10 @@ def gen_scalar(rng):
 
 def gen_value(rng, depth):
     if depth <= 0 or rng.random() < 0.35: return gen_scalar(rng)
-    if rng.random() < 0.5:
+    r = rng.random()
+    if r < 0.15:
+        return [rng.choice(STR_POOL + IDENT_KEYS) for _ in range(rng.choice([1, 2, 3]))]
+    if r < 0.5:
         return [gen_value(rng, depth - 1) for _ in range(rng.choice([0, 1, 2, 3, 4]))]
     return gen_obj(rng, depth - 1, rng.choice([0, 1, 2, 3, 5]))
 
@@ -249,6 +252,10 @@ def nav_tie(ctx, lits):
         doc = gen_doc(rng)
         path = gen_path(rng, doc, want_hit=rng.random() < 0.8)
         key = rng.choice(STR_POOL + IDENT_KEYS + QUOTED_KEYS[:4])
+        reached = py_navigate(doc, path)
+        if reached[0] == 'ok' and isinstance(reached[1], (list, dict)) and rng.random() < 0.6:
+            cands = sorted(x for x in reached[1] if isinstance(x, str))
+            if cands: key = rng.choice(cands)
         text = sq.dumps(doc)
         ptext = SQLBuilder.eval_json_path(path)
         sq.path_cache.clear()
@@ -269,6 +276,7 @@ def nav_tie(ctx, lits):
         real['truthy'] = bool(dec(tv['ok'])) if 'ok' in tv else None
         v = dec(tv['ok']) if 'ok' in tv else None
         real['pyIn'] = (key in v) if 'ok' in tv and isinstance(v, (list, dict)) else None
+        if real['pyIn'] is not None: ctx.count('nav-contains:%s:%s' % (type(v).__name__, real['pyIn']))
         real['topOk'] = True if 'ok' in tv else None
         r1 = j1.query(text, ptext)
         real['json1'] = {'ok': enc(r1['ok'])} if 'ok' in r1 else r1
@@ -342,8 +350,9 @@ def array_tie(ctx, clamp):
             for v in vals:
                 for form in ('const', 'expr'):
                     src_i = repr(v) if form == 'const' else 'x.k'
-                    ti = select('x.ia[%s] for x in D' % src_i, {'D': D})._translator.expr_columns[0]
-                    ts = select('x.ia[%s:%s] for x in D' % (src_i, src_i), {'D': D})._translator.expr_columns[0]
+                    ti = make_query(D, 'x.ia[%s] for x in D' % src_i, {}, gen=True)._translator.expr_columns[0]
+                    ts = make_query(D, 'x.ia[%s:%s] for x in D' % (src_i, src_i), {}, gen=True)._translator.expr_columns[0]
+                    ctx.count('index-ast:%s:%s' % (form, ti[2][0]))
                     assert ti[0] == 'ARRAY_INDEX' and ts[0] == 'ARRAY_SLICE', (ti, ts)
                     for n in lens:
                         cases.append((prov, from_one, form, v, n, eval_index_ast(ti[2], n, v), eval_index_ast(ts[2], n, v), eval_index_ast(ts[3], n, v)))
@@ -403,10 +412,19 @@ def expr_src(path, as_params):
     return 'x.data' + ''.join('[%r]' % (k,) for k in path), {}
 
 
-def run_query(D, src, names):
+def make_query(D, src, names, gen=False):
+    """`gen`: the query is a real generator expression (compiled by CPython, decompiled by Pony), so that negative literals are constants;
+    otherwise a string query (where `-1` is an outer expression, i.e. a parameter)"""
     env = dict(names); env['D'] = D
+    if gen:
+        env['select'] = select
+        return eval('select(%s)' % src, env)
+    return select(src, env)
+
+
+def run_query(D, src, names, gen=False):
     try:
-        return ('ok', select(src, env)[:])
+        return ('ok', make_query(D, src, names, gen)[:])
     except Exception as e:
         return ('raised', type(e).__name__)
 
@@ -458,7 +476,7 @@ class Oracle:
         else: self.ctx.violation(what, inp, observed=observed, expected=expected)
 
     # ---- one JSON operation on one stored document, on one back end
-    def json_op(self, json1, rid, doc, path, op, arg=None, as_params=False, model=None, forced_class=None):
+    def json_op(self, json1, rid, doc, path, op, arg=None, as_params=False, model=None, forced_class=None, gen=True):
         ctx = self.ctx
         db, D = self.db(json1)
         E, names = expr_src(path, as_params)
@@ -495,14 +513,14 @@ class Oracle:
                 except TypeError: expected = ('n/a', 'TypeError')
         else: raise ValueError(op)
         with db_session:
-            res = run_query(D, src, names)
+            res = run_query(D, src, names, gen)
         if res[0] == 'ok':
             rows = res[1]
             if op in ('get', 'len'): got = ('value', rows[0]) if len(rows) == 1 else ('rows', len(rows))
             else: got = ('bool', bool(rows))
         else: got = res
-        inp = {'json1': json1, 'doc': doc, 'path': path, 'op': op, 'arg': arg, 'params': as_params, 'query': 'select(%r)' % src}
-        ctx.case(['json', json1, op, doc, path, arg, as_params], kind='oracle:json:%s:%s:%s' % ('json1' if json1 else 'fallback', op, expected[0] if expected[0] == 'n/a' else 'defined'))
+        inp = {'json1': json1, 'doc': doc, 'path': path, 'op': op, 'arg': arg, 'params': as_params, 'gen': gen, 'query': ('select(%s)' if gen else 'select(%r)') % src}
+        ctx.case(['json', json1, op, doc, path, arg, as_params, gen], kind='oracle:json:%s:%s:%s' % ('json1' if json1 else 'fallback', op, expected[0] if expected[0] == 'n/a' else 'defined'))
         ok = True
         if expected[0] == 'n/a':
             ctx.count('oracle-na:' + str(expected[1]))
@@ -527,7 +545,7 @@ class Oracle:
         return None
 
     # ---- array operations
-    def array_op(self, rid, attr, xs, op, arg, k=None, forced_class=None):
+    def array_op(self, rid, attr, xs, op, arg, k=None, forced_class=None, gen=True):
         ctx = self.ctx
         db, D = self.db(True)
         names = {'rid': rid}
@@ -561,14 +579,14 @@ class Oracle:
         elif op in ('truthy', 'not'):
             src = 'x.id for x in D if x.id == rid and %sx.%s' % ('not ' if op == 'not' else '', attr); expected = ('bool', bool(xs) != (op == 'not'))
         with db_session:
-            res = run_query(D, src, names)
+            res = run_query(D, src, names, gen)
         if res[0] == 'ok':
             rows = res[1]
             if op in ('index', 'slice', 'len'): got = ('value', list(rows[0]) if isinstance(rows[0], list) else rows[0]) if len(rows) == 1 else ('rows', len(rows))
             else: got = ('bool', bool(rows))
         else: got = res
-        inp = {'array': xs, 'attr': attr, 'op': op, 'arg': arg, 'k': k, 'query': 'select(%r)' % src}
-        ctx.case(['array', attr, op, xs, arg, k], kind='oracle:array:%s:%s' % (op, expected[0] if expected[0] == 'n/a' else 'defined'))
+        inp = {'array': xs, 'attr': attr, 'op': op, 'arg': arg, 'k': k, 'gen': gen, 'query': ('select(%s)' if gen else 'select(%r)') % src}
+        ctx.case(['array', attr, op, xs, arg, k, gen], kind='oracle:array:%s:%s' % (op, expected[0] if expected[0] == 'n/a' else 'defined'))
         ok = True
         if expected[0] != 'n/a':
             ok = got[0] == expected[0] and same(got[1], expected[1])
@@ -650,8 +668,9 @@ def oracle_json(ctx, orc):
                 ops.append(('len', None))
             for op, arg in ops:
                 as_params = rng.random() < 0.4
+                gen = rng.random() < 0.7
                 for j1 in (True, False):
-                    orc.json_op(j1, rids[j1], doc, path, op, arg, as_params=as_params)
+                    orc.json_op(j1, rids[j1], doc, path, op, arg, as_params=as_params, gen=gen)
 
 
 def oracle_array(ctx, orc, clamp):
@@ -669,12 +688,13 @@ def oracle_array(ctx, orc, clamp):
         for _ in range(ctx.scale(3, 5)):
             form = rng.choice(['const', 'param', 'attr'])
             i = k if form == 'attr' else rng.choice(grid[1:])
-            got, expected, ok = orc.array_op(rid, attr, xs, 'index', (form, i), k=k)
+            g = rng.random() < 0.75
+            got, expected, ok = orc.array_op(rid, attr, xs, 'index', (form, i), k=k, gen=g)
             if attr == 'ia': reqs.append({'op': 'array', 'xs': xs, 'i': i, 'a': None, 'b': None}); checks.append(('index', xs, i, got))
             fa = rng.choice(['const', 'param', 'attr']); fb = rng.choice(['const', 'param', 'attr'])
             a = k if fa == 'attr' else rng.choice(grid); b = k if fb == 'attr' else rng.choice(grid)
             if a is None and b is None and rng.random() < 0.7: a = 0
-            got, expected, ok = orc.array_op(rid, attr, xs, 'slice', ((fa, a), (fb, b)), k=k)
+            got, expected, ok = orc.array_op(rid, attr, xs, 'slice', ((fa, a), (fb, b)), k=k, gen=g)
             if attr == 'ia': reqs.append({'op': 'array', 'xs': xs, 'i': None, 'a': a, 'b': b}); checks.append(('slice', xs, (a, b), got))
             item = rng.choice(pool + xs)
             orc.array_op(rid, attr, xs, 'contains', (item, rng.choice(['const', 'param']), rng.random() < 0.3), k=k)
@@ -714,13 +734,13 @@ def replay(ctx, data):
         if isinstance(inp, dict) and 'doc' in inp:
             rid = orc.store(inp['json1'], data=inp['doc'])
             arg = inp.get('arg'); arg = tuple(arg) if isinstance(arg, list) else arg
-            orc.json_op(inp['json1'], rid, inp['doc'], inp['path'], inp['op'], arg, as_params=inp.get('params', False))
+            orc.json_op(inp['json1'], rid, inp['doc'], inp['path'], inp['op'], arg, as_params=inp.get('params', False), gen=inp.get('gen', True))
         elif isinstance(inp, dict) and 'array' in inp:
             rid = orc.store(True, k=inp.get('k'), **{inp['attr']: inp['array']})
             arg = inp.get('arg')
             if inp['op'] == 'slice': arg = tuple(tuple(x) for x in arg)
             elif isinstance(arg, list): arg = tuple(arg)
-            orc.array_op(rid, inp['attr'], inp['array'], inp['op'], arg, k=inp.get('k'))
+            orc.array_op(rid, inp['attr'], inp['array'], inp['op'], arg, k=inp.get('k'), gen=inp.get('gen', True))
     except Exception as e:
         ctx.note('replay of the recorded input failed to run: %s: %s' % (type(e).__name__, e))
     run(ctx)
